@@ -839,7 +839,8 @@ pub fn do_op(sh: &Arc<Shared>, local: &mut TaskLocal, op: &Op) -> OpResult {
         | Op::PathRoundTrip { .. }
         | Op::ParseMutations { .. }
         | Op::ParseLine { .. }
-        | Op::FileKinds { .. } => crate::cli::do_cli(sh, local, op),
+        | Op::FileKinds { .. }
+        | Op::SysFault { .. } => crate::cli::do_cli(sh, local, op),
         Op::CInit { .. } | Op::CUpdate { .. } | Op::CFinalize { .. } | Op::CReset { .. } | Op::CCopy { .. } | Op::CSetMask { .. } => {
             crate::cnode::do_cop(sh, local, op)
         }
